@@ -26,3 +26,30 @@ func Malloc(size int, capacity ...int) []byte {
 }
 
 func Free(buf []byte) {}
+
+// API stubs so that the buffer scenarios still compile in the race build (they are not run there).
+
+type Block struct {
+	Base   *byte
+	Cap    int
+	Free   bool
+	Frees  int
+	Site   uintptr
+	FSite  uintptr
+	Serial int
+}
+
+type Event struct {
+	Kind  string
+	Cap   int
+	Site  uintptr
+	Prev  uintptr
+	Step  int
+	Block int
+}
+
+var Events []Event
+
+func Lookup(p *byte) *Block { return nil }
+func Outstanding() int      { return 0 }
+func Blocks() []*Block      { return nil }
